@@ -242,6 +242,15 @@ def run_discovery(cfg, lose, hours, probe_hours=()):
             t = h * 3600
             snaps.append((h, observed(gwy)))
         obs["snaps"] = snaps
+        dead = []           # an entity whose discovery poller has ended (it is an endless loop) never asks again
+        ents = list(gwy.devices)
+        for tcs in gwy.systems:
+            ents += [tcs] + list(tcs.zones) + ([tcs.dhw] if tcs.dhw else [])
+        for e in ents:
+            t = getattr(e, "_discovery_poller", None)
+            if t is not None and t.done() and not t.cancelled() and t.exception() is not None:
+                dead.append((str(getattr(e, "id", e)), type(t.exception()).__name__, str(t.exception())[:100]))
+        obs["dead_pollers"] = dead
         await gwy.stop()
 
     eb.dt = heat.dt = fsm.dt = VDT
